@@ -202,11 +202,12 @@ package jsonschema
 //@   requires stackOK: forall i int {stk0[i]} :: 0 <= i && i < len(stk0) ==> inRS(rs, stk0[i])
 //@   requires annsOK: callerAnns != nil ==> annsOwned(callerAnns)
 //@   modifies st.stack, callerAnns.allItems, callerAnns.endIndex, callerAnns.evaluatedIndexes, callerAnns.allProperties, callerAnns.evaluatedProperties, callerAnns.evaluatedIndexes.entries, callerAnns.evaluatedProperties.entries
-//@   ensures stacklen: len(st.stack) == len(stk0)
-//@   ensures stackelems: newOrNil(st.stack) && (forall i int {st.stack[i]} :: 0 <= i && i < len(stk0) ==> st.stack[i] == old(stk0[i]))
+//@   ensures[C06,C10] stacklen: len(st.stack) == len(stk0)
+//@   ensures[C06,C10] stackelems: newOrNil(st.stack) && (forall i int {st.stack[i]} :: 0 <= i && i < len(stk0) ==> st.stack[i] == old(stk0[i]))
 //@   ensures annsOK: callerAnns != nil ==> annsOwned(callerAnns)
 //@   ensures mapsI: callerAnns != nil ==> (callerAnns.evaluatedIndexes == old(callerAnns.evaluatedIndexes) || fresh(callerAnns.evaluatedIndexes))
 //@   ensures mapsP: callerAnns != nil ==> (callerAnns.evaluatedProperties == old(callerAnns.evaluatedProperties) || fresh(callerAnns.evaluatedProperties))
+//@   noreads Schema: Title, Description, Comment, Default, Examples, Deprecated, ReadOnly, WriteOnly, Format, ContentEncoding, ContentMediaType, ContentSchema, Defs, Definitions, Extra, PropertyOrder, Vocabulary
 //@   loopinv rsframe: st.rs == rs
 //@   ensures[C07] noleak1: err != nil && callerAnns != nil ==> callerAnns.allItems == old(callerAnns.allItems) && callerAnns.endIndex == old(callerAnns.endIndex) && callerAnns.allProperties == old(callerAnns.allProperties)
 //@   ensures[C07] noleak2: err != nil && callerAnns != nil ==> callerAnns.evaluatedIndexes == old(callerAnns.evaluatedIndexes) && callerAnns.evaluatedProperties == old(callerAnns.evaluatedProperties)
